@@ -182,9 +182,11 @@ def check_settings(case):
 def _lob_case(draw):
     h = draw(st.sampled_from([0.25, 0.5, 1.0, 2.0]))
     spec = {"table": draw(st.sampled_from(["TableG1", "TableGS", "TableG7"])), "bc": draw(st.floats(0.02, 0.3)), "mv": draw(st.floats(80.0, 400.0)),
-            "wdl": None, "sh": 2.0, "twist": 0.0, "zero": 0.0, "look": 0.0, "rel": draw(st.floats(40.0, 87.0)) * gen.DEG, "cant": 0.0,
+            "wdl": None, "sh": 2.0, "twist": 0.0, "zero": 0.0, "look": 0.0,
+            "rel": draw(st.one_of(st.floats(40.0, 90.0), st.sampled_from([90.0, 89.9, 85.0]))) * gen.DEG, "cant": 0.0,
             "atmo": {"kind": "icao", "alt": 0.0},
-            "winds": [[draw(st.floats(20.0, 130.0)), draw(st.one_of(st.just(math.pi), st.floats(2.4, 3.9), st.floats(-math.pi, math.pi))), 1e8]]}
+            "winds": [[draw(st.one_of(st.just(0.0), st.floats(0.0, 130.0), st.floats(20.0, 130.0))),
+                       draw(st.one_of(st.just(math.pi), st.just(0.0), st.floats(2.4, 3.9), st.floats(-math.pi, math.pi))), 1e8]]}
     return {"shot": spec, "h": h, "R": draw(st.floats(50.0, 400.0))}
 
 
